@@ -480,6 +480,19 @@ func c06Gen(c *vfCtx, emit func(c06Case)) {
 		emit(c06Case{Threads: perThread, Bound: bound})
 	}
 	extras := []string{"sa-create", "sa-update", "sa-mismatch", "skip", "sj-create", "sj-update"}
+	yamlThreads := func() {
+		// the same kinds of calls made through the other entry points that share the multi-entry file (one thread, or both)
+		for _, a := range kindsets(2, c06Kinds) {
+			for _, apis := range [][]string{{"yaml", ""}, {"", "yaml"}, {"yaml", "yaml"}} {
+				emit(c06Case{Threads: [][]string{{a[0]}, {a[1]}}, Bound: 2, APIs: apis})
+			}
+		}
+		for _, k := range []string{"update", "create", "match"} {
+			emit(c06Case{Threads: [][]string{{"update-grow"}, {k}}, Bound: 2, APIs: []string{"yaml", ""}})
+			emit(c06Case{Threads: [][]string{{k}, {"update-shrink"}}, Bound: 2, APIs: []string{"", "yaml"}})
+			emit(c06Case{Threads: [][]string{{"update-grow"}, {k}}, Bound: 2, APIs: []string{"yaml", "yaml"}})
+		}
+	}
 	if !c.thorough() {
 		// 2 threads x 1 call, all 16 assignments, preemption bound 3
 		for _, a := range kindsets(2, c06Kinds) {
@@ -517,17 +530,7 @@ func c06Gen(c *vfCtx, emit func(c06Case)) {
 			scen([][]string{{k}, {"update-shrink"}}, 2)
 		}
 		scen([][]string{{"update-shrink"}, {"update-shrink"}}, 2)
-		// the same kinds of calls made through the other entry points that share the multi-entry file (one thread, or both)
-		for _, a := range kindsets(2, c06Kinds) {
-			for _, apis := range [][]string{{"yaml", ""}, {"", "yaml"}, {"yaml", "yaml"}} {
-				emit(c06Case{Threads: [][]string{{a[0]}, {a[1]}}, Bound: 2, APIs: apis})
-			}
-		}
-		for _, k := range []string{"update", "create", "match"} {
-			emit(c06Case{Threads: [][]string{{"update-grow"}, {k}}, Bound: 2, APIs: []string{"yaml", ""}})
-			emit(c06Case{Threads: [][]string{{k}, {"update-shrink"}}, Bound: 2, APIs: []string{"", "yaml"}})
-			emit(c06Case{Threads: [][]string{{"update-grow"}, {k}}, Bound: 2, APIs: []string{"yaml", "yaml"}})
-		}
+		yamlThreads()
 		// the very first run: the shared file does not exist yet, every thread creates
 		for i, th := range [][][]string{{{"create"}, {"create"}}, {{"create", "create"}, {"create"}}, {{"create"}, {"create"}, {"create"}}, {{"create-big"}, {"create"}}} {
 			emit(c06Case{Threads: th, Bound: []int{3, 2, 1, 2}[i], NoFile: true})
@@ -543,6 +546,7 @@ func c06Gen(c *vfCtx, emit func(c06Case)) {
 		for _, a := range kindsets(2, c06Kinds) {
 			scen([][]string{{a[0]}, {a[1]}}, -1)
 		}
+		yamlThreads()
 		// 2 threads x 2 calls: all 256 assignments at preemption bound 2, the diagonal at bound 3
 		for _, a := range kindsets(4, c06Kinds) {
 			scen([][]string{{a[0], a[1]}, {a[2], a[3]}}, 2)
